@@ -1,5 +1,6 @@
 use std::num::{NonZeroU16, NonZeroU32};
-use std::{cell::Cell, fmt, future::Future, future::ready, rc::Rc};
+use std::task::{Context, Poll, Waker, ready};
+use std::{cell::Cell, fmt, future::Future, future::ready, pin::Pin, rc::Rc};
 
 use ntex_bytes::{ByteString, Bytes};
 use ntex_util::{channel::pool, future::Either, future::Ready};
@@ -469,12 +470,44 @@ impl PublishBuilder {
         let idx = shared.set_publish_id(&mut self.packet);
         log::trace!("Publish (QoS2) to {:#?}", self.packet);
 
-        let rx =
-            shared.wait_publish_response(idx, AckType::Receive, self.packet, Some(payload));
-        async move {
-            rx?.await
-                .map(move |ack| PublishReceived::new(ack.receive(), shared))
-                .map_err(|_| SendPacketError::Disconnected)
+        let rx = shared
+            .wait_publish_response(idx, AckType::Receive, self.packet, Some(payload))
+            .map(|rx| ReceiptWaiter { rx: Some(rx), shared });
+        async move { rx?.await }
+    }
+}
+
+/// Waits for PUBREC packet.
+///
+/// If the future is dropped after PUBREC is received, publish gets released.
+struct ReceiptWaiter {
+    rx: Option<pool::Receiver<Ack>>,
+    shared: Rc<MqttShared>,
+}
+
+impl Future for ReceiptWaiter {
+    type Output = Result<PublishReceived, SendPacketError>;
+
+    fn poll(mut self: Pin<&mut Self>, cx: &mut Context<'_>) -> Poll<Self::Output> {
+        let Some(rx) = self.rx.as_ref() else {
+            return Poll::Ready(Err(SendPacketError::Disconnected));
+        };
+        let result = ready!(rx.poll_recv(cx));
+        self.rx = None;
+        Poll::Ready(
+            result
+                .map(|ack| PublishReceived::new(ack.receive(), self.shared.clone()))
+                .map_err(|_| SendPacketError::Disconnected),
+        )
+    }
+}
+
+impl Drop for ReceiptWaiter {
+    fn drop(&mut self) {
+        if let Some(rx) = self.rx.take()
+            && let Poll::Ready(Ok(ack)) = rx.poll_recv(&mut Context::from_waker(Waker::noop()))
+        {
+            drop(PublishReceived::new(ack.receive(), self.shared.clone()));
         }
     }
 }
